@@ -8,6 +8,7 @@ pub mod c02;
 pub mod c03;
 pub mod c04;
 pub mod c09;
+pub mod c12;
 pub mod c13;
 
 pub fn run(id: &str, tier: Tier, seed: u64) -> Option<i32> {
@@ -17,6 +18,7 @@ pub fn run(id: &str, tier: Tier, seed: u64) -> Option<i32> {
         "C03" => c03::run(tier, seed),
         "C04" => c04::run(tier, seed),
         "C09" => c09::run(tier, seed),
+        "C12" => c12::run(tier, seed),
         "C13" => c13::run(tier, seed),
         _ => return None,
     })
